@@ -5472,6 +5472,13 @@ def map_partitions(
         # will need to call `Repartition` on operands that are not
         # aligned with `self.expr`.
         raise NotImplementedError()
+    token = kwargs.pop("token", None)
+    # Collections passed as keyword arguments are operands like positional ones
+    args = list(args)
+    for key, value in kwargs.items():
+        if isinstance(getattr(value, "expr", value), expr.Expr):
+            kwargs[key] = expr._OperandRef(len(args))
+            args.append(value)
     new_expr = expr.MapPartitions(
         args[0],
         func,
@@ -5481,7 +5488,7 @@ def map_partitions(
         clear_divisions,
         align_dataframes,
         parent_meta,
-        kwargs.pop("token", None),
+        token,
         kwargs,
         *args[1:],
     )
